@@ -34,6 +34,10 @@ pub struct Case {
     pub caller: (u32, u32),
     pub position: Position,
     pub sysctl: u32,
+    /// the process already did the same lookup under another effective uid (root, or
+    /// uid 1000 when the caller is root) before it became the caller
+    #[serde(default)]
+    pub warm: bool,
 }
 
 pub fn all_cases() -> Vec<Case> {
@@ -44,7 +48,9 @@ pub fn all_cases() -> Vec<Case> {
                 for link_owner in [0u32, 1000, 1001] {
                     for caller in [(0u32, 0u32), (1000, 1000), (1001, 1001), (1001, 1000)] {
                         for position in [Position::TrailingFollow, Position::TrailingNofollow, Position::Intermediate, Position::OpenSubpath, Position::TrailingSlash, Position::TrailingDot, Position::TrailingChain] {
-                            v.push(Case { dir_mode, dir_owner, link_owner, caller, position, sysctl });
+                            for warm in [false, true] {
+                                v.push(Case { dir_mode, dir_owner, link_owner, caller, position, sysctl, warm });
+                            }
                         }
                     }
                 }
@@ -159,7 +165,8 @@ fn c(p: &std::path::Path) -> CString {
     CString::new(p.as_os_str().as_encoded_bytes()).unwrap()
 }
 
-pub fn child(case: &Case) -> Report {
+/// One process = one back-end (the library picks it once per process).
+pub fn child(case: &Case, kcfg: Kcfg) -> Report {
     let mut rep = Report { emulated: Out::Unit, kernel_backend: Out::Unit, oracle: KOut::Err(0), setup_problem: None, sysctl_seen: read_sysctl() };
     let sb = Sandbox::create("c15");
     unsafe { libc::chmod(c(&sb.base).as_ptr(), 0o755) };
@@ -185,7 +192,46 @@ pub fn child(case: &Case) -> Report {
         libc::chown(c(&sticky).as_ptr(), case.dir_owner, case.dir_owner);
         libc::chmod(c(&sticky).as_ptr(), case.dir_mode);
     }
-    // become the caller (before any thread exists)
+    let op = match case.position {
+        Position::TrailingFollow => Op::Resolve { path: B::new("s/l") },
+        Position::TrailingNofollow => Op::ResolveNofollow { path: B::new("s/l") },
+        Position::Intermediate => Op::Resolve { path: B::new("s/l/x") },
+        Position::OpenSubpath => Op::Open { path: B::new("s/l"), flags: libc::O_RDONLY },
+        Position::TrailingSlash => Op::Resolve { path: B::new("s/l/") },
+        Position::TrailingDot => Op::Resolve { path: B::new("s/l/.") },
+        Position::TrailingChain => Op::Resolve { path: B::new("s/l") },
+    };
+    let run = |k: Kcfg| -> Out {
+        with_session(k, None, |s| {
+            s.run(|_wg, _st| match open_root(&root, false) {
+                Ok(r) => {
+                    let (o, fd) = exec_op(&r, &op, false);
+                    drop(fd);
+                    o
+                }
+                Err(o) => o,
+            })
+        })
+    };
+    // the same lookup under another effective uid first: the verdict must be made for
+    // whoever calls, not for whoever called first in this process
+    if case.warm {
+        let wuid: u32 = if case.caller.1 == 0 { 1000 } else { 0 };
+        unsafe {
+            if wuid != 0 && libc::syscall(libc::SYS_setresuid, -1i32, wuid, -1i32) != 0 {
+                rep.setup_problem = Some(format!("seteuid({}): {}", wuid, errno_name(errno())));
+                return rep;
+            }
+        }
+        let _ = run(kcfg);
+        unsafe {
+            if wuid != 0 && libc::syscall(libc::SYS_setresuid, -1i32, 0u32, -1i32) != 0 {
+                rep.setup_problem = Some(format!("seteuid(0): {}", errno_name(errno())));
+                return rep;
+            }
+        }
+    }
+    // become the caller
     if case.caller != (0, 0) {
         unsafe {
             if libc::setgroups(0, std::ptr::null()) != 0 || libc::syscall(libc::SYS_setresgid, case.caller.1, case.caller.1, case.caller.1) != 0 {
@@ -199,15 +245,6 @@ pub fn child(case: &Case) -> Report {
             libc::prctl(libc::PR_SET_DUMPABLE, 1, 0, 0, 0);
         }
     }
-    let op = match case.position {
-        Position::TrailingFollow => Op::Resolve { path: B::new("s/l") },
-        Position::TrailingNofollow => Op::ResolveNofollow { path: B::new("s/l") },
-        Position::Intermediate => Op::Resolve { path: B::new("s/l/x") },
-        Position::OpenSubpath => Op::Open { path: B::new("s/l"), flags: libc::O_RDONLY },
-        Position::TrailingSlash => Op::Resolve { path: B::new("s/l/") },
-        Position::TrailingDot => Op::Resolve { path: B::new("s/l/.") },
-        Position::TrailingChain => Op::Resolve { path: B::new("s/l") },
-    };
     let rootfd = match openat_raw(libc::AT_FDCWD, root.as_os_str().as_encoded_bytes(), libc::O_PATH | libc::O_DIRECTORY, 0) {
         Ok(f) => f,
         Err(e) => {
@@ -216,20 +253,12 @@ pub fn child(case: &Case) -> Report {
         }
     };
     rep.oracle = k_lookup(rootfd, &op, false);
-    let run = |k: Kcfg| -> Out {
-        with_session(k, None, |s| {
-            s.run(|_wg, _st| match open_root(&root, false) {
-                Ok(r) => {
-                    let (o, fd) = exec_op(&r, &op, false);
-                    drop(fd);
-                    o
-                }
-                Err(o) => o,
-            })
-        })
-    };
-    rep.emulated = run(Kcfg::NoOpenat2NoMountApi);
-    rep.kernel_backend = run(Kcfg::NoMountApi);
+    let out = run(kcfg);
+    if kcfg.has_openat2() {
+        rep.kernel_backend = out;
+    } else {
+        rep.emulated = out;
+    }
     close(rootfd);
     rep
 }
@@ -277,12 +306,13 @@ pub fn judge(case: &Case, rep: &Report, stats: &mut Stats) -> Result<(), Fail> {
             check: "protected-symlinks".into(),
             signature: sig,
             message: format!(
-                "directory mode {:o} owned by {}, link owned by {}, caller ruid {} euid {}, {:?}, fs.protected_symlinks={}\n  kernel (openat2 RESOLVE_IN_ROOT as the same user): {}\n  {} backend: {}",
+                "directory mode {:o} owned by {}, link owned by {}, caller ruid {} euid {}{}, {:?}, fs.protected_symlinks={}\n  kernel (openat2 RESOLVE_IN_ROOT as the same user): {}\n  {} backend: {}",
                 case.dir_mode,
                 case.dir_owner,
                 case.link_owner,
                 case.caller.0,
                 case.caller.1,
+                if case.warm { " (after the same lookup under another effective uid in this process)" } else { "" },
                 case.position,
                 case.sysctl,
                 rep.oracle.brief(),
@@ -293,6 +323,9 @@ pub fn judge(case: &Case, rep: &Report, stats: &mut Stats) -> Result<(), Fail> {
         })
     };
     for (which, lib) in [("emulated", &rep.emulated), ("openat2", &rep.kernel_backend)] {
+        if *lib == Out::Unit {
+            continue; // that back-end was not run for this case
+        }
         if let Out::Panicked(_) = lib {
             return Err(mk(format!("panic:{}", which), which, lib));
         }
@@ -305,7 +338,11 @@ pub fn judge(case: &Case, rep: &Report, stats: &mut Stats) -> Result<(), Fail> {
 }
 
 pub fn check_once(case: &Case, stats: &mut Stats) -> Result<(), Fail> {
-    let r = run_in_child(60.0, || child(case));
+    let r = run_in_child(60.0, || child(case, Kcfg::NoOpenat2NoMountApi));
+    // the openat2 back-end is the kernel itself; it is run (in its own process, judged
+    // against that process's own kernel oracle) as a cross-check of the harness for
+    // the plain cases only
+    let r2 = if !case.warm { Some(run_in_child(60.0, || child(case, Kcfg::NoMountApi))) } else { None };
     // the child may be unprivileged: the parent removes its sandbox
     if let Ok(rd) = std::fs::read_dir(scratch_base()) {
         for e in rd.flatten() {
@@ -316,6 +353,11 @@ pub fn check_once(case: &Case, stats: &mut Stats) -> Result<(), Fail> {
                     rm_rf(&e.path());
                 }
             }
+        }
+    }
+    if let Some(ChildOut::Ok(rep2)) = &r2 {
+        if rep2.setup_problem.is_none() {
+            judge(case, rep2, &mut Stats::default())?;
         }
     }
     match r {
@@ -369,11 +411,11 @@ fn replay(_ctx: &Ctx, _check: &str, case: &Value) -> Result<(), Fail> {
 pub const PROP: Prop = Prop {
     id: "C15",
     level: "exploration",
-    rule: "the full finite product (enumerated: 2 x 5 x 3 x 3 x 4 x 7 = 2520 cases) of sysctl value {0,1} x directory mode {0755, 0777, 01777, 01775, 01755} x directory owner {0,1000,1001} x link owner {0,1000,1001} x caller {root, uid 1000, uid 1001, real 1001/effective 1000} x link position {trailing followed, trailing not followed, intermediate component, one-shot open, 'link/' , 'link/.', chain of two trailing links}. The real fs.protected_symlinks is set (under a lock, restored on every exit path); each case runs in a child that builds the directory and link as root, becomes the caller, and then asks (a) the kernel itself: openat2(RESOLVE_IN_ROOT) as that user, (b) the library with openat2 -> ENOSYS (emulated walk), (c) the library's openat2 backend. Oracle: (b) and (c) equal (a): same object or same errno, EACCES exactly where the kernel says so. The documented rule (sticky & world-writable, link owner neither the caller's fsuid nor the directory owner) only classifies; its disagreement with the kernel is reported as model_disagreements. non-trivial = sticky world-writable directory and link not owned by the caller",
+    rule: "the full finite product (enumerated: 2 x 5 x 3 x 3 x 4 x 7 x 2 = 5040 cases) of sysctl value {0,1} x directory mode {0755, 0777, 01777, 01775, 01755} x directory owner {0,1000,1001} x link owner {0,1000,1001} x caller {root, uid 1000, uid 1001, real 1001/effective 1000} x link position {trailing followed, trailing not followed, intermediate component, one-shot open, 'link/' , 'link/.', chain of two trailing links} x {fresh process; process that already did the same lookup under another effective uid}. The real fs.protected_symlinks is set (under a lock, restored on every exit path); each case runs in a child that builds the directory and link as root, becomes the caller, and then asks (a) the kernel itself: openat2(RESOLVE_IN_ROOT) as that user, (b) the library with openat2 -> ENOSYS (emulated walk), (c) in a separate process (the back-end is chosen once per process) the library's openat2 backend, for the fresh-process cases. Oracle: (b) and (c) equal (a): same object or same errno, EACCES exactly where the kernel says so. The documented rule (sticky & world-writable, link owner neither the caller's fsuid nor the directory owner) only classifies; its disagreement with the kernel is reported as model_disagreements. non-trivial = sticky world-writable directory and link not owned by the caller",
     assumptions: &["changes the system-wide fs.protected_symlinks for the duration of the run (serialised by a lock file, restored by guard, signal handler and by the next run if the process was killed)", "other checks are unaffected while it is 1: their links are owned by the caller"],
     lanes: |_| 1,
     run_lane,
     replay,
-    extra: Some(|_| json!({"exhaustive_scope": "all 2520 combinations"})),
+    extra: Some(|_| json!({"exhaustive_scope": "all 5040 combinations"})),
     exhaustive: true,
 };
